@@ -61,7 +61,7 @@ unsafe impl GlobalAlloc for Ledger {
                 }
             }
         }
-        let p = unsafe { System.alloc(layout) };
+        let p = if track && arena_on() { arena_alloc(layout) } else { unsafe { System.alloc(layout) } };
         if track && !p.is_null() {
             BUSY.with(|b| b.set(true));
             unsafe { std::ptr::write_bytes(p, FRESH, layout.size()) };
@@ -87,7 +87,9 @@ unsafe impl GlobalAlloc for Ledger {
 
     unsafe fn dealloc(&self, p: *mut u8, layout: Layout) {
         if BUSY.with(|b| b.get()) {
-            unsafe { System.dealloc(p, layout) };
+            if !in_arena(p) {
+                unsafe { System.dealloc(p, layout) };
+            }
             return;
         }
         BUSY.with(|b| b.set(true));
@@ -111,7 +113,7 @@ unsafe impl GlobalAlloc for Ledger {
                 let dbl = QUAR.with(|q| q.borrow().contains_key(&(p as usize)));
                 if dbl {
                     record_err(format!("double free of a block of size {}", layout.size()));
-                } else {
+                } else if !in_arena(p) {
                     unsafe { System.dealloc(p, layout) };
                 }
             }
@@ -206,7 +208,50 @@ pub fn fail_nth_alloc(n: u64) {
 
 /// Start of a run: forget everything (blocks still live from an earlier run are
 /// simply no longer tracked).
+// ---------------------------------------------------------------------------
+// Optional low-memory arena: guest allocations are served below 4 GiB so that
+// generated bindings which carry the rep of an exported resource through a
+// 32-bit value (`as u32 as usize`, exact on wasm32) work natively. A bump
+// allocator that is rewound at the start of every run.
+static mut ARENA_BASE: usize = 0;
+static mut ARENA_SIZE: usize = 0;
+static mut ARENA_BUMP: usize = 0;
+
+unsafe extern "C" {
+    fn mmap(addr: *mut u8, len: usize, prot: i32, flags: i32, fd: i32, off: i64) -> *mut u8;
+}
+pub fn use_low_arena(size: usize) {
+    unsafe {
+        // PROT_READ|PROT_WRITE, MAP_PRIVATE|MAP_ANONYMOUS|MAP_32BIT
+        let p = mmap(std::ptr::null_mut(), size, 3, 0x02 | 0x20 | 0x40, -1, 0);
+        if p as isize == -1 || (p as usize) + size > (1usize << 32) {
+            crate::report::harness_error("could not map a guest arena below 4 GiB");
+        }
+        ARENA_BASE = p as usize;
+        ARENA_SIZE = size;
+        ARENA_BUMP = 0;
+    }
+}
+fn arena_on() -> bool {
+    unsafe { ARENA_SIZE != 0 }
+}
+fn in_arena(p: *const u8) -> bool {
+    unsafe { ARENA_SIZE != 0 && (p as usize) >= ARENA_BASE && (p as usize) < ARENA_BASE + ARENA_SIZE }
+}
+fn arena_alloc(layout: Layout) -> *mut u8 {
+    unsafe {
+        let start = (ARENA_BASE + ARENA_BUMP).div_ceil(layout.align()) * layout.align();
+        let end = start + layout.size().max(1);
+        if end > ARENA_BASE + ARENA_SIZE {
+            return std::ptr::null_mut();
+        }
+        ARENA_BUMP = end - ARENA_BASE;
+        start as *mut u8
+    }
+}
+
 pub fn begin_run() {
+    unsafe { ARENA_BUMP = 0 };
     host(|| {
         BUSY.with(|b| b.set(true));
         LIVE.with(|l| l.borrow_mut().clear());
@@ -233,9 +278,9 @@ pub fn release_quarantine() -> Option<String> {
                     b.size, b.seq
                 ));
             }
-            unsafe {
-                System.dealloc(ptr, Layout::from_size_align_unchecked(b.size, b.align))
-            };
+            if !in_arena(ptr) {
+                unsafe { System.dealloc(ptr, Layout::from_size_align_unchecked(b.size, b.align)) };
+            }
         }
         BUSY.with(|b| b.set(false));
         bad
